@@ -320,4 +320,34 @@ def merge [DecidableEq R] (a b : MT R) (p : Option R) : Except Err (MT R × MT R
     | .ok n => .ok (n, ab.1, ab.2)
     | .error e => .error e
 
+/-! ## Several expectation operators given as a dictionary
+
+The running sums of the `e_ops` are kept in a list, in the order of the dictionary's keys; `merge`
+combines the lists of the two operands position by position.  `mergeable` is the test `merge` makes
+before doing so (since its repair: same keys *in the same order*). -/
+section dictops
+variable {R : Type} [Add R] [Mul R]
+
+/-- the sums of one operand: key and value, in the order of its dictionary -/
+abbrev KeyedSums (R : Type) := List (String × R)
+
+/-- `merge` as implemented: position by position, keys of the first operand -/
+def mergeByPosition (w1 w2 : R) (a b : KeyedSums R) : KeyedSums R :=
+  List.zipWith (fun x y => (x.1, w1 * x.2 + w2 * y.2)) a b
+
+/-- what the merged result must hold for a key: the mixture of the operands' sums *for that key* -/
+def mergeForKey (w1 w2 : R) (a b : KeyedSums R) (k : String) : Option R :=
+  match a.find? (·.1 == k), b.find? (·.1 == k) with
+  | some x, some y => some (w1 * x.2 + w2 * y.2)
+  | _, _ => none
+
+/-- the test before merging, after the repair -/
+def mergeable (a b : KeyedSums R) : Bool := a.map (·.1) == b.map (·.1)
+
+/-- the test before the repair: the dictionaries are equal as dictionaries (same set of keys) -/
+def mergeableOld (a b : KeyedSums R) : Bool :=
+  a.length == b.length && a.all (fun x => b.any (·.1 == x.1))
+
+end dictops
+
 end Qv.C15
